@@ -187,6 +187,7 @@ type uEnv struct {
 	parkRTCP     atomic.Pointer[chan struct{}] // non-nil: every transport-side RTCP write parks until the channel is closed
 	rtcpBusy     atomic.Int32    // RTCP writes currently inside a slow / parked transport
 	slowRTCP     atomic.Int64    // nanoseconds the transport-side RTCP writer takes per write (0: returns at once)
+	slowMu       sync.Mutex      // the slow transport-side RTCP writer handles one write at a time
 	slowDump     atomic.Int64    // nanoseconds the packet dump formatter waits before it looks at a packet
 	wireRTPn     atomic.Int64    // RTP packets that have reached the transport-side writers
 	appRTPn      atomic.Int64    // RTP packets the application has written (par steps with a window)
@@ -618,8 +619,10 @@ func (e *uEnv) wireRTCP() interceptor.RTCPWriter {
 			e.mu.Unlock()
 			if park != nil {
 				<-*park
-			} else {
+			} else { // one write at a time, like a socket: concurrent writers queue up behind each other
+				e.slowMu.Lock()
 				time.Sleep(slow)
+				e.slowMu.Unlock()
 			}
 		}
 		e.mu.Lock()
